@@ -1,6 +1,6 @@
 (* C31  File selection and path matching follow the documented rules.
    Statements only; every proof is `exact <lemma>`. *)
-From CV Require Import Base.Bytes Base.Glob Path.Defs Path.MatchProofs Path.SpecProofs Path.ListProofs Path.IterProofs Path.Termination.
+From CV Require Import Base.Bytes Base.Glob Path.Defs Path.MatchProofs Path.SpecProofs Path.ListProofs Path.IterProofs Path.CanonProofs Path.Termination.
 From Coq Require Import Permutation Sorted.
 Local Open Scope N_scope.
 
@@ -22,18 +22,28 @@ Theorem C31_match_loop_spec fuel real s t b :
 Proof. exact (match_loop_spec fuel real s t b). Qed.
 Print Assumptions C31_match_loop_spec.
 
+(* The PathIterator reads the documented canonical form (split into components,
+   drop "" and ".", ".." removes the previous component, keep the root) of every
+   string that is rooted or does not begin with a ".." component. *)
+Theorem C31_iterator_reads_canon a b :
+  canon_ok (join_raw a b) = true -> iter_read a b = canon (join_raw a b).
+Proof. exact (iter_read_canon a b). Qed.
+Print Assumptions C31_iterator_reads_canon.
+
 (* PathMatch::match(pattern, path, basepath, mode, unix) as a whole (fast paths,
    directory-only patterns, real patterns, iterators) against the documented
-   rules over the documented canonical forms.  partial: pattern and path on
-   which the iterators read the canonical form (reads_canon_b); the
+   rules over the documented canonical forms, for every fuel.
+   partial: (1) pattern and path - joined with the base path where the code does
+   so - are rooted or do not begin with ".." (canon_ok; the documentation is
+   silent on relative paths that climb above their start); (2) the
    `pattern == path` shortcut is covered for real patterns or an empty base
    path (fast_ok). *)
 Theorem C31_pathmatch_partial fuel pattern path base isdir b :
   fast_ok pattern base = true ->
-  reads_canon_b pattern path base = true ->
+  canon_ok (pat_raw pattern base) = true -> canon_ok (path_raw path base) = true ->
   pathmatch_fuel fuel pattern path base isdir = Some b ->
   (b = true <-> pathmatch_spec pattern path base isdir).
-Proof. exact (pathmatch_fuel_spec fuel pattern path base isdir b). Qed.
+Proof. exact (pathmatch_fuel_spec_ok fuel pattern path base isdir b). Qed.
 Print Assumptions C31_pathmatch_partial.
 
 (* Termination: run with loop_fuel (an explicit bound computed from |pattern|,
@@ -52,10 +62,10 @@ Print Assumptions C31_pathmatch_model_total.
 (* ... and its answer is the documented rules *)
 Theorem C31_pathmatch_total pattern path base isdir :
   fast_ok pattern base = true ->
-  reads_canon_b pattern path base = true ->
+  canon_ok (pat_raw pattern base) = true -> canon_ok (path_raw path base) = true ->
   exists b, pathmatch_model pattern path base isdir = Some b /\
             (b = true <-> pathmatch_spec pattern path base isdir).
-Proof. exact (pathmatch_total pattern path base isdir). Qed.
+Proof. exact (pathmatch_total_ok pattern path base isdir). Qed.
 Print Assumptions C31_pathmatch_total.
 
 (* The iterator reads a string without empty, "." or ".." components and
@@ -132,7 +142,8 @@ Example C31_premises_ok :
   pathmatch_model [63;42;97]%N [98;97]%N []%N false = Some true /\                 (* "?*a" vs "ba" (fixed by 0d8f8cc) *)
   fast_ok [115;114;99;47;42;46;99]%N [47;114]%N = false /\
   fast_ok [46;47;115;114;99]%N [47;114]%N = true /\                                (* "./src" *)
-  reads_canon_b [46;47;115;114;99]%N [115;114;99;47;97;46;99]%N [47;114]%N = true /\
+  canon_ok (pat_raw [46;47;115;114;99]%N [47;114]%N) = true /\ canon_ok (path_raw [115;114;99;47;97;46;99]%N [47;114]%N) = true /\
+  canon_ok [46;46;47;97]%N = false /\ iter_read [46;46;47;97]%N [] = [46;46;47;97]%N /\   (* "../a" is kept; outside canon_ok *)
   pathmatch_model [46;47;115;114;99]%N [115;114;99;47;97;46;99]%N [47;114]%N false = Some true /\   (* "./src" vs "src/a.c" *)
   pathmatch_model [42;46;99]%N [115;114;99;47;97;46;99]%N []%N false = Some true /\                 (* "*.c" vs "src/a.c" *)
   pathmatch_model [115;114;99;47]%N [115;114;99]%N []%N false = Some false /\                     (* "src/" vs file "src" *)
